@@ -291,6 +291,14 @@ class ConfigLeg(object):
                 continue
             db = gffutils.create_db(p, os.path.join(outdir, "solo%d.db" % i), **_kwargs(spec))
             solo.append(dbsnap.snapshot(db))
+            if spec.get("options") != "keep-suffix" and i % 2 == 0:
+                # the finished database is extended once more through update(): its intermediate file goes the same way
+                before_upd = set(os.listdir(shared_tmp))
+                first = next(iter(db.all_features()))
+                db.update([first], merge_strategy="create_unique", make_backup=False)
+                left = sorted(set(os.listdir(shared_tmp)) - before_upd)
+                if left:
+                    return Failure("update() on a finished import left %r in the temp dir" % left[:3], sig={"kind": "temp-left-update"})
             db.conn.close()
             if spec.get("options") == "keep-suffix":
                 kept = [x for x in os.listdir(shared_tmp) if x.endswith(".kept")]
